@@ -393,6 +393,23 @@ func c06Files(c *Ctx) {
 					k.Failf("file-gz", "%s.File(*.gz) differs from Reader on the uncompressed bytes:\n File   %s\n Reader %s", f, traceString(got), traceString(ref))
 				}
 				k.Count("file_gz", 1)
+				// ONE File iterator value ranged again and again (after a stopped run and
+				// after a complete one): File(path) names the file, so every range over it
+				// yields what Reader yields on the file's bytes.
+				for _, p := range []string{plain, gz} {
+					one := cd.file(p)
+					for range one {
+						break
+					}
+					for pass := 1; pass <= 2; pass++ {
+						got, over := collect(one, len(x)+8)
+						if over || !sameTrace(got, ref) {
+							k.Failf("file-reranged", "%s.File(%s): pass %d over ONE iterator value (after an earlier stopped run) differs from Reader on the file's bytes:\n File   %s\n Reader %s", f, filepath.Base(p), pass, traceString(got), traceString(ref))
+							break
+						}
+					}
+					k.Count("file_iterator_values_reranged", 1)
+				}
 				k.Count("file_items", int64(len(ref)))
 				k.Nontrivial([]byte(f), x)
 			})
